@@ -58,15 +58,24 @@ Theorem C03_rt_fixed_point :
               /\ (w = JNull -> v = JNull).
 Proof. exact rt_fixed_point. Qed.
 
-(* FULL STATEMENT (not proved in this development; evaluated directly on the
-   compiled code on every run, and on the model through K5):
-     C03_rt_contains :
-       rt_simple T t = true -> de f t v = Some x -> decl_only T f t v = true ->
-       forall g w, f < g -> ser T g t x = Some w -> contained (prune v) (prune w).
-   Proved part: a non-null input is never turned into the omittable value null
-   (the fact that makes Option members safe to prune).  Missing: the member-wise
-   induction through structs / enums under [decl_only]. *)
-Theorem C03_rt_contains_partial :
+(* Declared data is kept: for an instance that contains only declared members
+   in canonical shape ([decl_only]: every object key at a struct is a declared
+   wire name, keys distinct, structs given as objects, enum instances in the
+   form the schema describes — a unit variant carries no payload), the pruned
+   instance is contained in the pruned output: objects member-wise, arrays
+   element-wise with equal length, numbers numerically.  Members are omitted
+   only when [skip_if] holds (Optional state, value None / [] / {}), in which
+   case the instance member was null / [] / {} and is pruned as well; members
+   may be added (defaults, `null` for a required Option). *)
+Theorem C03_rt_contains :
+  forall re_match native_ok T t,
+    rt_simple T t = true ->
+    forall f v x, de re_match native_ok T f t v = Some x -> decl_only T f t v = true ->
+    forall g w, f < g -> ser T g t x = Some w -> contained (prune v) (prune w).
+Proof. exact rt_contains. Qed.
+
+(* A non-null input is never turned into the omittable value null. *)
+Theorem C03_rt_null_only_from_null :
   forall re_match native_ok T t,
     rt_simple T t = true ->
     forall f v x, de re_match native_ok T f t v = Some x ->
